@@ -11,4 +11,9 @@ pub broadcast axiom fn axiom_from_reflexive_value<T>(v: T)
     ensures #[trigger] <T as vstd::std_specs::convert::FromSpec<T>>::from_spec(v) == v;
 pub broadcast group axiom_from_reflexive { axiom_from_reflexive_obeys, axiom_from_reflexive_value }
 
+pub assume_specification[ String::as_bytes ](s: &String) -> (r: &[u8]);
+
+pub assume_specification[ String::with_capacity ](n: usize) -> (r: String)
+    ensures r@ == Seq::<char>::empty();
+
 } // verus!
